@@ -754,6 +754,9 @@ class Gate:
         yield self
 
 
+OBJECT_ROOT = "image1_vm1-vm1.virtio_blk.CentOS"     # `object_root` of the machine's copies: <image>_<vm>-<vm variant>
+
+
 class Machine:
     """Drives the real TestRunner.run_test_node coroutines by hand (no event loop): `start` runs a coroutine up to the
     suspension inside run_test_task, `finish` resumes it.  asyncio.sleep is replaced by a counter that delivers late
@@ -765,9 +768,17 @@ class Machine:
         self.nodes = []
         for (w, pfx) in copies:
             n = mk_node(I, pfx, node_name("tutorial1", w[0], w[1]), w[0], w[1],
-                        {"pool_scope": POOLS[0], "nets_spawner": "lxc"}, False)
+                        {"pool_scope": POOLS[0], "nets_spawner": "lxc", "object_root": OBJECT_ROOT,
+                         "configure_install": "configure_install_stub"}, False)
             self.nodes.append(n)
         self.workers = [W(*w) for (w, _) in copies]
+        # what traverse_terminal_node looks up: the vm object of the object root and the root node of the worker
+        self.graph = I.TestGraph()
+        self.graph.new_nodes(self.nodes)
+        self.graph.new_objects(types.SimpleNamespace(
+            key="vms", suffix="vm1", long_suffix="vm1_stub", is_permanent=lambda: False,
+            params={"images": "image1", "name": OBJECT_ROOT.split("-", 1)[1]}))
+        self.last_pre = None
         for a in self.nodes:
             for b in self.nodes:
                 if a is not b:
@@ -775,7 +786,9 @@ class Machine:
         self.tests = []
         self.runner = I.TestRunner()
         self.runner.job = types.SimpleNamespace(result=types.SimpleNamespace(tests=self.tests))
+        self.graph.runner = self.runner
         self.pending = []
+        self.last_started = None
         self.cur = None
         self.executions = []      # every started execution: dict(name, uid, tag, kind)
         self.tag = 0
@@ -792,11 +805,12 @@ class Machine:
             self.tests.append({"name": tid, "status": o[0], "time_elapsed": o[1], "tag": ex["tag"]})
 
     async def fake_task(self, runner, node):
-        ex = self.cur
-        ex["uid"] = node.id_test.uid
-        ex["name"] = node.params["name"]
+        self.tag += 1
+        ex = {"tag": self.tag, "kind": None, "outcome": None, "delivered": False, "sleeps": 0, "node": node,
+              "uid": node.id_test.uid, "name": node.params["name"]}
+        self.executions.append(ex)
+        self.last_started = ex
         await Gate()
-        ex = self.cur
         if ex["outcome"] is not None and ex["outcome"][2] == 0:
             self._deliver(ex)
 
@@ -816,17 +830,14 @@ class Machine:
 
     # events --------------------------------------------------------------------------------
     def _begin(self, node, kind):
-        self.tag += 1
-        ex = {"tag": self.tag, "kind": kind, "outcome": None, "delivered": False, "sleeps": 0, "node": node,
-              "uid": None, "name": None, "before": list(node.results)}
-        self.cur = ex
         p1, p2 = self._patches()
         with p1, p2:
             coro = self.runner.run_test_node(node)
             got = coro.send(None)
         assert isinstance(got, Gate), got
+        ex = self.last_started
+        ex["kind"] = kind
         ex["coro"] = coro
-        self.executions.append(ex)
         return ex
 
     def _end(self, ex, outcome):
@@ -892,21 +903,48 @@ class Machine:
         n.should_run = n.default_run_decision
         return f"replayed {len(n.results) - before}"
 
-    def pre(self, i, outcome):
-        if i >= len(self.nodes):
+    def create(self, i, outcome):
+        """one creation attempt of object root copy i by the REAL TestGraph.traverse_terminal_node; the one Cartesian parse
+        in it (TestGraph.parse_node_from_object of the pre-node) is replaced by a synthetic pre-node, as harness/travlib.py
+        does; the pre-step runs to its end, a main execution started after it stays pending"""
+        if i >= len(self.nodes) or any(e["copy"] == i for e in self.pending):
             return "noop"
-        n = self.nodes[i]
-        w = self.copies[i][0]
-        pre = mk_node(self.I, _EXTRACTED_VALUES["prePrefix"] if _EXTRACTED_VALUES else "0",
-                      node_name("noop", w[0], w[1], setv="all"), w[0], w[1],
-                      {"pool_scope": POOLS[0], "nets_spawner": "lxc"}, False)
-        pre.results = list(n.results)          # graph.py:traverse_terminal_node, `pre_node.results = list(test_node.results)`
-        pre.started_worker = self.workers[i]
-        ex = self._begin(pre, "pre")
-        ex["copy"] = i
-        ret = self._end(ex, outcome)
-        ex["pre_results"] = pre.results
-        return f"pre {ex['name']} {ex['uid']} {ret}"
+        n, w, wt = self.nodes[i], self.workers[i], self.copies[i][0]
+        mach = self
+
+        def parse_node_from_object(test_object, restriction="", prefix="", params=None):
+            pre = mk_node(mach.I, prefix, node_name("noop", wt[0], wt[1], setv="all"), wt[0], wt[1],
+                          {"pool_scope": POOLS[0], "nets_spawner": "lxc"}, False)
+            mach.last_pre = pre
+            return pre
+        p1, p2 = self._patches()
+        p3 = mock.patch.object(self.I.TestGraph, "parse_node_from_object", staticmethod(parse_node_from_object))
+        main = "-"
+        with p1, p2, p3:
+            coro = self.graph.traverse_terminal_node(OBJECT_ROOT, w, self.I.Params({}))
+            got = coro.send(None)
+            assert isinstance(got, Gate), got
+            pre_ex = self.last_started
+            pre_ex.update(kind="pre", copy=i, outcome=outcome)
+            self.cur = pre_ex
+            try:
+                got = coro.send(None)
+                assert isinstance(got, Gate), got
+                ex = self.last_started
+                assert ex is not pre_ex
+                ex.update(kind="main", copy=i, coro=coro, entry=["UNKNOWN"])
+                self.ledger[i].append(ex["entry"])
+                self.pending.append(ex)
+                ret, main = "true", f"started:{ex['name']}:{ex['uid']}"
+            except StopIteration as stop:
+                ret = "true" if stop.value else "false"
+                # ORACLE ledger: the failed attempt counts as one status so far of the object root
+                visible = outcome is not None and outcome[2] < status_timeout()
+                self.ledger[i].append([outcome[0] if visible else "UNKNOWN"])
+        self._deliver(pre_ex)
+        pre_ex["pre_results"] = list(self.last_pre.results)
+        pre_ex["ok"] = ret == "true"
+        return f"pre {pre_ex['name']} {pre_ex['uid']} {ret} {main}"
 
     def dump(self):
         def r(d):
@@ -928,10 +966,13 @@ def enc_outcome(o):
 
 
 def canon_model_obs(line):
-    """model: 'finished name uid status found' -> 'finished name uid bool' (run_test_node only returns the bool)"""
+    """model: 'finished name uid status found' -> 'finished name uid bool' (run_test_node only returns the bool);
+    'pre name uid status found main' -> 'pre name uid bool main'"""
     p = line.split(" ")
-    if p[0] in ("finished", "pre") and len(p) == 5:
+    if p[0] == "finished" and len(p) == 5:
         return f"{p[0]} {p[1]} {p[2]} {'false' if p[3] in ('error', 'fail') else 'true'}"
+    if p[0] == "pre" and len(p) == 6:
+        return f"{p[0]} {p[1]} {p[2]} {'false' if p[3] in ('error', 'fail') else 'true'} {p[5]}"
     return line
 
 
@@ -947,6 +988,7 @@ def gen_machine_case(rng, tier_big=False):
     busy = []          # copy index of every pending execution, in pending order
     nev = rng.randint(1, 14 if not tier_big else 24)
     mode = rng.random()
+    creation_bias = rng.random() < 0.35      # runs of failing creation attempts (the retried object creation)
     for _ in range(nev):
         r = rng.random()
         def outcome():
@@ -970,8 +1012,16 @@ def gen_machine_case(rng, tier_big=False):
             prev = [[node_name("tutorial1", w[0], w[1], setv="all"), rng.choice(REPORTED7), rng.choice([1, 2, 4])]
                     for w in rng.sample(WORKERS, rng.randint(0, 2))]
             events.append(["replay", i, prev])
-        elif r < 0.22:
-            events.append(["pre", rng.randrange(k), outcome()])
+        elif r < 0.30:
+            free = [i for i in range(k) if i not in busy]
+            i = rng.choice(free) if free and rng.random() < 0.95 else rng.randrange(k)
+            o = outcome()
+            if creation_bias and rng.random() < 0.6:
+                o = rng.choice([None, ["FAIL", 1, 0], ["ERROR", 2, 0], ["FAIL", 1, T], ["ERROR", 1, 1], o])
+            events.append(["create", i, o])
+            if i not in busy and o is not None and o[2] < T and o[0] not in ("FAIL", "ERROR"):
+                busy.append(i)           # the main execution follows a successful pre-step and stays pending
+                pending += 1
         elif pending and (r < 0.62 or (mode < 0.3 and pending >= 1)):
             j = rng.randrange(pending) if rng.random() < 0.5 else 0
             events.append(["finish", j, outcome()])
@@ -1008,8 +1058,8 @@ def machine_lines(c):
             lines.append(f"m-finish;{ev[1]};{enc_outcome(ev[2])}")
         elif ev[0] == "replay":
             lines.append(f"m-replay;{ev[1]};{enc_results(ev[2])}")
-        elif ev[0] == "pre":
-            lines.append(f"m-pre;{ev[1]};{enc_outcome(ev[2])}")
+        elif ev[0] == "create":
+            lines.append(f"m-create;{ev[1]};{enc_outcome(ev[2])}")
         lines.append("m-dump")
     lines.append("m-verdict")
     return lines
@@ -1028,8 +1078,8 @@ def run_machine_impl(I, c):
             # only previous results matching the node's bridged form reach the model (regex matching is not modelled);
             # the real traverse_node gets the unfiltered list
             out.append(m.replay(ev[1], ev[2]))
-        elif ev[0] == "pre":
-            out.append(m.pre(ev[1], ev[2]))
+        elif ev[0] == "create":
+            out.append(m.create(ev[1], ev[2]))
         out.append(m.dump())
     out.append(m.verdict())
     return out, m
@@ -1051,7 +1101,8 @@ def prefilter_replays(I, c):
 
 
 def judge_machine(ctx, c, m):
-    """ORACLE on the implementation's own run: distinct identifiers, own result read, verdict."""
+    """ORACLE on the implementation's own run: distinct identifiers (executions and creation pre-steps), own result read,
+    results ledger, verdict."""
     T = status_timeout()
     main = [e for e in m.executions if e["kind"] == "main"]
     ids = [(e["name"], e["uid"]) for e in main]
@@ -1060,25 +1111,24 @@ def judge_machine(ctx, c, m):
     if len(set(names)) == len(names) and len(set(ids)) != len(ids):
         dup = [i for i in ids if ids.count(i) > 1][0]
         ctx.violate("uid-collision", f"two executions carry the identifier {dup}", c)
-    # pre-steps: identifiers are only claimed distinct when the node's own results grew in between
+    # creation pre-steps: successive attempts on an object root must carry distinct identifiers as well
     pre_ids = [(e["name"], e["uid"]) for e in m.executions if e["kind"] == "pre"]
-    ctx.count("machine.pre-id-repeated" if len(set(pre_ids)) != len(pre_ids) else "machine.pre-ids-distinct")
-    stale_possible = set(i for i in pre_ids if pre_ids.count(i) > 1)
+    ctx.count(f"machine.creation-attempts={min(len(pre_ids), 4)}")
+    if len(set(pre_ids)) != len(pre_ids):
+        dup = [i for i in pre_ids if pre_ids.count(i) > 1][0]
+        ctx.violate("pre-uid-collision", f"two creation pre-steps carry the identifier {dup}", c)
     # own result read
     for e in m.executions:
         o = e["outcome"]
-        if o is None or o[2] >= T or "coro" not in e or e in m.pending:
-            continue
-        if (e["name"], e["uid"]) in stale_possible:
-            ctx.count("machine.stale-read-possible(pre-step id repeated)")
+        if o is None or o[2] >= T or e in m.pending or e["kind"] not in ("main", "pre"):
             continue
         res = e["node"].results if e["kind"] == "main" else e.get("pre_results", [])
         mine = [r for r in res if r.get("tag") == e["tag"]]
-        if e["kind"] == "main" and len(mine) != 1:
-            # a later never-finished state cannot remove it: results only grow
-            ctx.violate("own-result-not-read", f"execution {e['name']} {e['uid']} reported {o} but its node does not hold "
-                                               f"exactly this result (found {len(mine)})", c)
-        elif mine and mine[0]["status"] not in (o[0], "WARN"):
+        if len(mine) != 1:
+            # (results only grow, so a later event cannot have removed it)
+            ctx.violate("own-result-not-read", f"{e['kind']} execution {e['name']} {e['uid']} reported {o} but its node does "
+                                               f"not hold exactly this result (found {len(mine)})", c)
+        elif mine[0]["status"] not in (o[0], "WARN"):
             ctx.violate("own-result-not-read", f"execution {e['uid']} recorded status {mine[0]['status']}, reported {o[0]}", c)
     # "every status so far": the node's results are exactly the replayed previous results plus one entry per execution
     for i, n in enumerate(m.nodes):
@@ -1123,7 +1173,7 @@ def run_machine_cases(ctx, cases, oracle=True):
         all_impl += out
         for ev in c["events"]:
             ctx.count("machine.ev." + ev[0])
-            if ev[0] in ("finish", "pre"):
+            if ev[0] in ("finish", "create"):
                 o = ev[2]
                 ctx.count("machine.outcome." + ("never" if o is None else ("late" if o[2] >= status_timeout() else
                                                                             ("delayed" if o[2] else "prompt"))))
